@@ -178,6 +178,10 @@ func entFacts(files []*ast.File, typ string, methods map[string]bool) []string {
 					evs = append(evs, ev{s.Sel.Pos(), "EvGuard \"" + stateArg(c) + "\""})
 				case "SetState":
 					evs = append(evs, ev{s.Sel.Pos(), "EvSet \"" + stateArg(c) + "\""})
+				case "ClearDispatchedAt", "ClearCancelledAt", "ClearDoneAt":
+					evs = append(evs, ev{s.Sel.Pos(), "EvClear \"" + strings.TrimPrefix(s.Sel.Name, "Clear") + "\""})
+				case "SetDispatchedAt", "SetCancelledAt", "SetDoneAt":
+					evs = append(evs, ev{s.Sel.Pos(), "EvStamp \"" + strings.TrimPrefix(s.Sel.Name, "Set") + "\""})
 				case "Exec", "Save":
 					evs = append(evs, ev{s.Sel.Pos(), "EvExec"})
 				case "GetById", "Get", "Only", "First", "All", "Query":
@@ -232,5 +236,8 @@ func main() {
 	fmt.Println("].")
 	fmt.Println("Definition ent_update_facts : list ent_fact := [")
 	fmt.Println(strings.Join(entFacts(ent, "EntRepository", map[string]bool{"Cancel": true, "MarkAsDispatched": true, "MarkAsDone": true}), ";\n"))
+	fmt.Println("].")
+	fmt.Println("Definition ent_recovery_facts : list ent_fact := [")
+	fmt.Println(strings.Join(entFacts(ent, "EntRepository", map[string]bool{"RevertDispatched": true, "CancelDispatched": true}), ";\n"))
 	fmt.Println("].")
 }
